@@ -95,6 +95,19 @@ def routePolyline (g : G) (routes : List (Nat × List Nat)) : M G :=
     -- `r.Points = append(r.Points, …)`: appended to whatever the edge already holds
     pure (setPts g e ((g.edge e).pts ++ [startPoint g ns.head!] ++ mids ++ [endPoint g ns.getLast!]))) g
 
+/-- the 4-point group the Ortho router emits between two consecutive chain nodes -/
+def orthoGroup (g : G) (ls layerh : Rat) (a b : Nat) : List Pt :=
+  let sp := startPoint g a
+  let sp := if (g.node a).virt then (sp.1, sp.2 + layerh) else sp
+  let ep := endPoint g b
+  let bendY := ep.2 - ls / 2
+  [sp, (sp.1, bendY), (ep.1, bendY), ep]
+
+/-- `for i := 1; i < len(r.ns); i++ { … 4 points … }` -/
+def orthoPoints (g : G) (ls layerh : Rat) : List Nat → List Pt
+  | a :: b :: rest => orthoGroup g ls layerh a b ++ orthoPoints g ls layerh (b :: rest)
+  | _ => []
+
 def routeOrtho (ls : Rat) (g : G) (routes : List (Nat × List Nat)) : M G :=
   routes.foldlM (fun g (e, ns) => do
     let ed := g.edge e
@@ -103,14 +116,7 @@ def routeOrtho (ls : Rat) (g : G) (routes : List (Nat × List Nat)) : M G :=
     let fs := g.node ed.src
     let ts := g.node ed.dst
     if fs.x + fs.w / 2 == ts.x + ts.w / 2 then return setPts g e (straight g ns.head! ns.getLast!)
-    let pairs := ns.zip ns.tail
-    let pts := pairs.flatMap fun (a, b) =>
-      let sp := startPoint g a
-      let sp := if (g.node a).virt then (sp.1, sp.2 + layerh) else sp
-      let ep := endPoint g b
-      let bendY := ep.2 - ls / 2
-      [sp, (sp.1, bendY), (ep.1, bendY), ep]
-    pure (setPts g e ((g.edge e).pts ++ pts))) g
+    pure (setPts g e ((g.edge e).pts ++ orthoPoints g ls layerh ns))) g
 
 /-- `phase5.Alg.Process`: 0 Polyline, 1 Straight, 2 Ortho, 4 Noop -/
 def phase5 (alg : Nat) (ls : Rat) (g : G) : M G := do
